@@ -402,3 +402,30 @@ func (p *Program) Reachable(g *callgraph.Graph, roots ...*ssa.Function) map[*ssa
 	}
 	return seen
 }
+
+// AnyPkg finds a loaded package (HIDI or dependency) by import path.
+func (p *Program) AnyPkg(path string) *packages.Package {
+	if pk, ok := p.Pkgs[path]; ok {
+		return pk
+	}
+	seen := map[*packages.Package]bool{}
+	var found *packages.Package
+	var visit func(pk *packages.Package)
+	visit = func(pk *packages.Package) {
+		if found != nil || seen[pk] {
+			return
+		}
+		seen[pk] = true
+		if pk.PkgPath == path {
+			found = pk
+			return
+		}
+		for _, im := range pk.Imports {
+			visit(im)
+		}
+	}
+	for _, pk := range p.All {
+		visit(pk)
+	}
+	return found
+}
